@@ -195,7 +195,42 @@ impl Observer for Obs {
         let m = members[pick(op[1], members.len())];
         let others: Vec<usize> = members.iter().copied().filter(|x| *x != m).collect();
         let s = others[pick(op[3], others.len())];
-        match pick(op[2], 8) {
+        match pick(op[2], 10) {
+            8 | 9 => {
+                // A ReInit commit built by a discarded clone of s (so the group goes on): corrupted copies, and a copy with a
+                // wrong confirmation tag under a fresh membership tag, must be rejected without a trace: a rejected
+                // re-initialisation must not freeze the member.
+                w.flush(op[4])?;
+                if w.parties[s].g().current_epoch() != w.parties[m].g().current_epoch() {
+                    return Ok(());
+                }
+                let mut clone = w.parties[s].g().clone();
+                let t = w.now();
+                let suite = w.cfg.suite;
+                let built = guard(|| {
+                    clone
+                        .commit_builder()
+                        .reinit(Some(b"successor".to_vec()), mls_rs::ProtocolVersion::MLS_10, mls_rs::CipherSuite::from(suite), mls_rs::ExtensionList::new())?
+                        .commit_time(t)
+                        .build()
+                });
+                let bytes = match built {
+                    Ok(o) => o.commit_message.to_bytes().expect("enc"),
+                    Err(e) if e.is_panic() => return Err(panic_failure(P, "commit_builder.reinit.build", &e)),
+                    Err(_) => return Ok(()),
+                };
+                for i in 0..2 {
+                    if let Some(mu) = mutate_message(&bytes, self.rng.next() as u16, self.rng.next() as u16, self.rng.next() as u16 ^ i) {
+                        self.try_rejected(w, m, &mu.bytes, &format!("corrupt_reinit_commit:{}", mu.field), None)?;
+                    }
+                }
+                let keys = w.parties[s].g().verif_epoch_keys();
+                let ctx = mls_rs::mls_rs_codec::MlsEncode::mls_encode_to_vec(w.parties[s].g().context()).expect("ctx");
+                if let Some(f) = crate::forge::wrong_confirmation_tag(suite, &bytes, &keys.key_schedule.membership_key, &ctx) {
+                    self.try_rejected(w, m, &f, "reinit_commit_wrong_confirmation_tag", None)?;
+                    self.ev.class("reinit_commit_wrong_confirmation_tag");
+                }
+            }
             0 | 1 => {
                 // corrupted copies of a genuine application message from s
                 if w.parties[s].g().commit_required() {
@@ -275,6 +310,18 @@ impl Observer for Obs {
     }
 
     fn before_receive_commit(&mut self, w: &mut World, m: usize, bytes: &[u8]) -> CaseResult {
+        // a copy of the commit with a wrong confirmation tag under a fresh membership tag (public handshake): it passes
+        // every check before the key schedule
+        if self.rng.below(3) == 0 {
+            if let Some(c) = w.members().into_iter().find(|c| w.parties[*c].g().has_pending_commit() && *c != m) {
+                let keys = w.parties[c].g().verif_epoch_keys();
+                let ctx = mls_rs::mls_rs_codec::MlsEncode::mls_encode_to_vec(w.parties[c].g().context()).expect("ctx");
+                if let Some(f) = crate::forge::wrong_confirmation_tag(w.cfg.suite, bytes, &keys.key_schedule.membership_key, &ctx) {
+                    self.try_rejected(w, m, &f, "commit_wrong_confirmation_tag_remaced", Some(bytes))?;
+                    self.ev.class("commit_wrong_confirmation_tag_remaced");
+                }
+            }
+        }
         match self.rng.below(10) {
             0..=2 => {
                 // corrupted copies of the commit before the genuine one
